@@ -772,3 +772,28 @@ pub fn c14(thorough: bool, rng: &mut Rng, out: &mut Out) {
         }
     }
 }
+
+/// Configure a fresh virtual sign with `block`, send `page` in 16-byte chunks, and return the
+/// dimensions and bytes of the page it then holds (None: no page, or a panic on the way).
+pub fn vsign_page_after_config(block: &[u8], page: &Page<'_>) -> Option<(u32, u32, Vec<u8>)> {
+    let block = block.to_vec();
+    let bytes = page.as_bytes().to_vec();
+    std::panic::catch_unwind(move || {
+        let a = Address(5);
+        let mut s = VirtualSign::new(a, PageFlipStyle::Manual);
+        s.process_message(&Message::RequestOperation(a, Operation::ReceiveConfig));
+        s.process_message(&Message::SendData(Offset(0), Data::try_new(block).ok()?));
+        s.process_message(&Message::DataChunksSent(ChunkCount(1)));
+        s.process_message(&Message::RequestOperation(a, Operation::ReceivePixels));
+        let mut n = 0u16;
+        for (i, c) in bytes.chunks(16).enumerate() {
+            s.process_message(&Message::SendData(Offset((i * 16) as u16), Data::try_new(c.to_vec()).ok()?));
+            n += 1;
+        }
+        s.process_message(&Message::DataChunksSent(ChunkCount(n)));
+        let p = s.pages().first()?;
+        Some((p.width(), p.height(), p.as_bytes().to_vec()))
+    })
+    .ok()
+    .flatten()
+}
